@@ -18,7 +18,10 @@
 //!   /hold       respond, then wait at the barrier (G), then return without reading
 //!   /slow/<ms>  respond, then stay in the handler for <ms> milliseconds, then return without reading
 //!   /err        return Err without responding              /errafter respond, then return Err
-//!   /close      respond with `connection: close`
+//!   /close      respond with `connection: close`      /closer  the same on a streamed response (okr)
+//!   /closeka    streamed response (sendr) whose Connection field is the list `keep-alive, Close`
+//!   /errk/<k>   return Err of io::ErrorKind k (wb, to, intr, pipe, eof, reset, other) without responding
+//!   /cont       send 100 Continue, read the body, respond (differential use only)
 //!   /reader/<n> respond with an n-byte body through the streaming printer (sendr)
 //! pre-routing hook: `x-hook: answer` -> the hook answers 200 "hook" and returns Drop;
 //!                   `x-hook: answer-close` -> same with connection: close.
@@ -80,6 +83,31 @@ pub fn app(mut ctx: RequestContext, res: &mut ResponseHandle) -> io::Result<()> 
         res.ok(&nd, d)?;
         std::thread::sleep(Duration::from_millis(ms.parse().unwrap_or(1)));
         Ok(())
+    } else if let Some(kind) = path.strip_prefix("/errk/") {
+        // a handler error of a particular io::ErrorKind (the kind must not matter: the connection is closed)
+        use io::ErrorKind::*;
+        let k = match kind { "wb" => WouldBlock, "to" => TimedOut, "intr" => Interrupted, "pipe" => BrokenPipe, "eof" => UnexpectedEof, "reset" => ConnectionReset, _ => Other };
+        Err(io::Error::new(k, "handler failed"))
+    } else if path.starts_with("/closer") {
+        // the close token on a streamed (reader) response
+        let mut h = Headers::new_nodate();
+        h.set_connection_close();
+        let d = describe(&ctx, b"");
+        res.okr(&h, &d[..])
+    } else if path.starts_with("/closeka") {
+        // the close token as one member of a list, on a streamed response with an explicit status
+        let mut h = Headers::new_nodate();
+        h.add("connection", &b"keep-alive, Close"[..]);
+        let d = describe(&ctx, b"");
+        res.sendr(&Status::of(200), &h, &d[..])
+    } else if path.starts_with("/cont") {
+        // interim response, then the body, then the final response (not in the Coq application model:
+        // used only where implementations are compared with each other)
+        res.send_100_continue()?;
+        let mut b = Vec::new();
+        ctx.body().read_to_end(&mut b)?;
+        let d = describe(&ctx, &b);
+        res.ok(&nd, d)
     } else if path.starts_with("/errafter") {
         let d = describe(&ctx, b"");
         res.ok(&nd, d)?;
